@@ -306,9 +306,28 @@ class Ctx(object):
 
     # ------------------------------------------------------------------ helpers to build inputs
     def trains(self, case, which=None):
+        """build SpikeTrain objects; the *representation* of the constructor arguments is varied deterministically
+        (float array / python list / tuple / whole numbers as python ints; edges as list / tuple / array)"""
         ps = self.ps
         tr = case["trains"] if which is None else [case["trains"][k] for k in which]
-        return [ps.SpikeTrain(np.array(s, dtype=float), [case["ts"], case["te"]]) for s in tr]
+        out = []
+        for k, s in enumerate(tr):
+            v = (self.evals + k) % 5
+            if v == 2:
+                spikes = [float(t) for t in s]
+                self.counters["repr_spikes_python_list"] += 1
+            elif v == 3 and s and all(float(t).is_integer() and abs(t) < 1e9 for t in s):
+                spikes = [int(t) for t in s]
+                self.counters["repr_spikes_python_ints"] += 1
+            elif v == 4:
+                spikes = tuple(float(t) for t in s)
+                self.counters["repr_spikes_tuple"] += 1
+            else:
+                spikes = np.array(s, dtype=float)
+            e = (self.evals + 2 * k) % 3
+            edges = [case["ts"], case["te"]] if e == 0 else (case["ts"], case["te"]) if e == 1 else np.array([case["ts"], case["te"]])
+            out.append(ps.SpikeTrain(spikes, edges))
+        return out
 
 
 # ---------------------------------------------------------------------------------------------- watchdog
